@@ -62,7 +62,9 @@ def run(ctx):
     items = []
     for p in progs:
         p["id"] = len(items)
-        items.append({"id": p["id"], "hex": p["hex"], "preexec": False, "gas": 200000, "reps": reps})
+        # a heap without a map of two entries has no iteration order to depend on: control runs only
+        has_map = any(c["kind"] == "map" and len(c["slots"]) > 1 for c in p["row"]["cells"])
+        items.append({"id": p["id"], "hex": p["hex"], "preexec": False, "gas": 200000, "reps": reps if has_map else 3})
     for p in slow:
         p["id"] = len(items)
         items.append({"id": p["id"], "hex": p["hex"], "preexec": False, "gas": 200000, "reps": 2})
